@@ -3,6 +3,7 @@ package c16
 import (
 	"bufio"
 	"bytes"
+	"context"
 	"crypto/sha1"
 	"encoding/base64"
 	"fmt"
@@ -166,6 +167,57 @@ func dialer(bufsz int) ws.Dialer {
 }
 
 var testURL, _ = url.Parse("ws://example.com/chat")
+
+// timeoutErr is a transport error of the kind a conn reports when a deadline somebody set on it expires.
+type timeoutErr struct{ temporary bool }
+
+func (e timeoutErr) Error() string   { return "verif: i/o timeout" }
+func (e timeoutErr) Timeout() bool   { return true }
+func (e timeoutErr) Temporary() bool { return e.temporary }
+
+// peerConn makes a lazyPeer a net.Conn (deadlines are accepted and ignored) and records Close.
+type peerConn struct {
+	*lazyPeer
+	closed int
+}
+
+func (c *peerConn) Close() error                     { c.closed++; return nil }
+func (c *peerConn) LocalAddr() net.Addr              { return nil }
+func (c *peerConn) RemoteAddr() net.Addr             { return nil }
+func (c *peerConn) SetDeadline(time.Time) error      { return nil }
+func (c *peerConn) SetReadDeadline(time.Time) error  { return nil }
+func (c *peerConn) SetWriteDeadline(time.Time) error { return nil }
+
+// runResponseDial is runResponse through Dialer.Dial: ctxKind 0 = Background, 1 = a cancellable context that
+// stays alive, 2 = a context with a far deadline; timeout is Dialer.Timeout. The context never ends during the
+// call, so whatever error the transport reported (a timeout of its own included) is the handshake's failure.
+func (c hsCase) runResponseDial(render func(string) []byte, ctxKind int, timeout time.Duration) error {
+	rand.Seed(c.Seed)
+	pc := &peerConn{lazyPeer: &lazyPeer{render: render, cut: c.Off, fault: c.Fault, chunks: c.Chunks}}
+	d := dialer(c.BufSz)
+	d.Timeout = timeout
+	d.NetDial = func(ctx context.Context, network, addr string) (net.Conn, error) { return pc, nil }
+	ctx := context.Background()
+	var cancel context.CancelFunc = func() {}
+	switch ctxKind {
+	case 1:
+		ctx, cancel = context.WithCancel(ctx)
+	case 2:
+		ctx, cancel = context.WithTimeout(ctx, time.Hour)
+	}
+	_, br, _, err := d.Dial(ctx, "ws://example.com/chat")
+	cancel()
+	if err == nil {
+		return fmt.Errorf("Dialer.Dial (context kind %d, Timeout %v) succeeded on a response cut at %d bytes by %v", ctxKind, timeout, c.Off, c.Fault)
+	}
+	if br != nil { // the conn itself is handed back closed, which is fine
+		return fmt.Errorf("Dialer.Dial returned a buffered reader together with the error %v", err)
+	}
+	if pc.closed == 0 {
+		return fmt.Errorf("Dialer.Dial failed with %v and left the conn open", err)
+	}
+	return nil
+}
 
 func (c hsCase) runResponse(render func(string) []byte) error {
 	rand.Seed(c.Seed)
@@ -342,18 +394,28 @@ func TestHandshakeCuts(t *testing.T) {
 			if err := full.runResponse(render); err == nil || !strings.Contains(err.Error(), "succeeded") {
 				t.Fatalf("harness: uncut response not accepted: %v\n%q", err, sample)
 			}
+			ctxKind := rapid.IntRange(0, 2).Draw(t, "ctx")
+			timeout := rapid.SampledFrom([]time.Duration{0, time.Hour}).Draw(t, "timeout")
 			for off := 0; off < len(sample); off++ {
-				for _, fault := range []error{io.EOF, tx.ErrInjected} {
+				for _, fault := range []error{io.EOF, tx.ErrInjected, timeoutErr{false}, timeoutErr{true}} {
 					c := hsCase{Kind: "response", Head: sample, Off: off, Fault: fault, Chunks: chunks, Seed: seed, BufSz: bufsz}
 					n++
 					if off > 0 {
-						hx.NonTrivial(hx.Hash("resp", sample, off, fault == io.EOF, len(chunks), bufsz), c.describe)
+						hx.NonTrivial(hx.Hash("resp", sample, off, fmt.Sprint(fault), len(chunks), bufsz), c.describe)
 					}
 					if err := c.runResponse(render); err != nil {
 						t.Fatalf("%v\ncase: %s", err, hx.JSON(c.describe()))
 					}
+					// the same cut seen through Dial, which wraps the handshake in its context bookkeeping
+					if off%3 == int(seed&1) || off == len(sample)-1 {
+						n++
+						if err := c.runResponseDial(render, ctxKind, timeout); err != nil {
+							t.Fatalf("%v\ncase: %s", err, hx.JSON(c.describe()))
+						}
+					}
 				}
 			}
+			hx.Class(fmt.Sprintf("handshake/response/dial-ctx%d-timeout%v", ctxKind, timeout != 0))
 			hx.Class("handshake/response")
 		}
 		hx.EvalN(n)
